@@ -63,3 +63,17 @@ def graph_wf(run, tier):
 
 def graph_copies(run, tier):
     run_harness(run, "graph_wf.py", tier, only=lambda ob: "bridging" in ob or "lazy" in ob or "deterministic" in ob)
+
+
+def _traversal(prefixes):
+    def hook(run, tier):
+        run_harness(run, "traversal_scenarios.py", tier, only=lambda ob: ob.startswith(prefixes))
+    return hook
+
+
+traversal_c01 = _traversal(("C01_",))
+traversal_c02 = _traversal(("C02_",))
+traversal_c03 = _traversal(("C03_",))
+traversal_c04 = _traversal(("C04_",))
+traversal_c05 = _traversal(("C05_",))
+traversal_c08 = _traversal(("C08_",))
